@@ -93,8 +93,11 @@ fn tiny_with(stretch: Vec<BlockSpec>) -> Universe {
         Some(FIRST),
         &[
             block(vec![tx(vec![out("y2", A, Orchard, External, 33_000), foreign(Orchard, 9_999)])]),
-            block(vec![tx(vec![out("y3", A, Orchard, External, 44_000), foreign(Sapling, 8_888)])]),
-            BlockSpec::default(),
+            // ... and on which two transactions of the abandoned branch are mined again, later and at
+            // shifted tree positions: a2's (Orchard, main 100101) after y3, b0's (Sapling, to account
+            // B; its nullifier depends on the position) after a foreign Sapling output
+            block(vec![tx(vec![out("y3", A, Orchard, External, 44_000), foreign(Sapling, 8_888)]), remine("a2")]),
+            block(vec![remine("b0")]),
         ],
         304,
     );
